@@ -22,6 +22,14 @@ try:
     from . import config_rules as CR
 except ImportError:  # pragma: no cover
     CR = None
+try:
+    from . import shape_rules as SR
+except ImportError:  # pragma: no cover
+    SR = None
+try:
+    from . import geom_rules as GR
+except ImportError:  # pragma: no cover
+    GR = None
 
 
 def _get(mod, name):
@@ -55,20 +63,23 @@ RULES = {
     "R26": _get(XR, "r26_engine_control"),
     "R27": _get(XR, "r27_slot_identity"),
     "R28": _get(XR, "r28_stateless_gradient_descent"),
+    "R29": _get(SR, "r29_matmul_adjoint_shapes"),
+    "R31": _get(SR, "r31_reduce_last"),
+    "R30": _get(GR, "r30_conv_geometry"),
 }
 
 # property -> rules (DESIGN.md section 4)
 PROPERTY_RULES = {
-    "C01": ["R9", "R5", "R27", "R6", "R24", "R11", "R25", "R23", "R26"],
-    "C02": ["R12", "R13", "R15", "R9"],
+    "C01": ["R9", "R8", "R5", "R27", "R6", "R24", "R11", "R25", "R23", "R26"],
+    "C02": ["R12", "R13", "R15", "R9", "R29", "R31", "R30"],
     "C03": ["R11", "R21"],
     "C08": ["R1", "R2", "R3", "R4", "R7"],
     "C09": ["R8", "R9", "R10", "R5"],
     "C10": ["R23", "R20", "R25", "R9", "R11", "R10", "R26", "R24"],
     "C11": ["R24", "R5", "R27", "R6", "R26"],
-    "C12": ["R5", "R27", "R3", "R6", "R7", "R17"],
+    "C12": ["R5", "R27", "R3", "R6", "R7", "R17", "R23"],
     "C13": ["R21", "R22", "R28"],
-    "C14": ["R21", "R28", "R22", "R20"],
+    "C14": ["R21", "R28", "R22", "R20", "R24", "R23"],
     "C16": ["R16", "R3", "R17"],
     "C17": ["R13", "R14", "R26"],
     "C18": ["R20", "R21", "R7"],
@@ -89,12 +100,12 @@ TRUSTED_BASE = [
 
 EXPLANATION = {
     "C01": "Clause-level static verdict. Decides the composition obligations of the autograd engine for all programs: one gated "
-           "adjoint slot per recorded operand (R9), operands recorded as slot-sharing clones (R5,R6), count/decrement/recursion "
+           "adjoint slot per recorded operand (R9), every operation (and the attach primitives op / sliced_op) attaches when an operand is tracked and records all operands in order (R8), operands recorded as slot-sharing clones (R5,R6), count/decrement/recursion "
            "guards (R24), contributions merged in the owner's shape (R11) by addition (R25), nobody else touches engine state (R23), "
            "and no engine branch reads adjoint values (R26). "
            "Does NOT decide the numeric value of any gradient.",
     "C02": "Clause-level static verdict over every built-in backward closure: every value-relevant scalar parameter reaches the "
-           "derivative (R12), each slot is linear-homogeneous in the incoming adjoint (R13), adjoint scatters accumulate (R15), one "
+           "derivative (R12), each slot is linear-homogeneous in the incoming adjoint (R13), adjoint scatters accumulate (R15), the matrix product's deltas have their operand's shape under all four transposition assignments (R29, a shape type system), one "
            "slot per operand (R9). Does NOT decide that the Jacobian is the right one.",
     "C03": "Clause-level static verdict: shape typestate (R11) proves that every value entering a pending-delta or gradient slot "
            "has been reduced to the owner's dimensions, for the first and every later contribution; R21 adds that the optimizer "
@@ -119,7 +130,8 @@ EXPLANATION = {
            "decided sharing class (R5); no body re-seats a shared slot of a handle (R27) or writes a handle's own dimensions/values in place (R3: "
            "clones would stop showing the same array); graphs hold clones, never reconstructions (R6); "
            "drops are silent (R7); equality ignores "
-           "per-handle state (R17).",
+           "per-handle state (R17); only the engine and the gradient accessors write the per-node slots every clone shares, so a "
+           "per-handle method (tracked / untracked / ...) cannot change what the other handles see (R23).",
     "C13": "Clause-level static verdict: the value installed over a parameter is a fresh, graph-free, gradient-free, same-shape, "
            "tracked array built by the public constructor (R21); the traversal that fills the frozen-mask / flat buffers and the one that "
            "consumes them visit the same parameters in a consistent order and select the same subset (R22); the optimizer has no "
@@ -128,7 +140,9 @@ EXPLANATION = {
            "iteration leaks into the next one): update installs fresh, graph-free, gradient-free, tracked parameters built by the "
            "public constructor (R21) in the right positions (R22); the gradient-descent optimizer has no interior-mutable state (R28); "
            "the model retains a single output slot that is replaced as a whole, no type keeps a collection of arrays, no static or "
-           "thread-local holds arrays, backward closures capture no arrays (R20). Does NOT decide that each step follows the exact "
+           "thread-local holds arrays, backward closures capture no arrays (R20); the engine's consumer counters are incremented "
+           "only for tracked children and paid back once per contribution (R24) and nobody else writes engine state (R23), so no "
+           "counter residue survives a pass on a parameter that was frozen meanwhile. Does NOT decide that each step follows the exact "
            "gradient of the current loss (numeric).",
     "C16": "Clause-level static verdict: all refusal clauses via the constructor funnel and its dominating assertions plus no later "
            "write (R16,R3), and equality reads exactly dimensions and values as a conjunction (R17). Does NOT decide index arithmetic.",
